@@ -52,6 +52,7 @@ class Ctx:
         self.var_info = {}  # name -> dict(kind=..., dom=...)
         self.side = []  # general assumptions (list of Formula)
         self.defs = {}  # var name -> list of Formula (domain of an input / definition of an atom)
+        self.subst = {}  # atom name -> Node: atom eliminated in favour of a product of other atoms (exp(L1+L2))
         self.den_list = []  # base id -> Node
         self.den_key = {}  # node id -> base id
         self.atoms = {}  # (kind, extra) -> list of (argSym, atomSym)
@@ -170,7 +171,8 @@ class Ctx:
             return memo[root.id]
         for n in self._topo([root], memo):
             if n.op == "v":
-                memo[n.id] = self.z3var(n.val)
+                sub = self.subst.get(n.val)
+                memo[n.id] = self.z3var(n.val) if sub is None else self.to_z3(sub)
             elif n.op == "c":
                 c = n.val
                 memo[n.id] = z3.RealVal(c.numerator) if c.denominator == 1 else z3.RealVal(str(c))
@@ -207,7 +209,8 @@ class Ctx:
             return vs
         for n in self._topo([root], self.varsets):
             if n.op == "v":
-                self.varsets[n.id] = frozenset([n.val])
+                sub = self.subst.get(n.val)
+                self.varsets[n.id] = frozenset([n.val]) if sub is None else (frozenset([n.val]) | self.varset(sub))
             elif n.op == "c":
                 self.varsets[n.id] = frozenset()
             else:
@@ -219,7 +222,8 @@ class Ctx:
         """SMT-LIB term with let-free named definitions appended to defs (list of str)"""
         for n in self._topo([root], memo):
             if n.op == "v":
-                memo[n.id] = "|" + n.val + "|"
+                sub = self.subst.get(n.val)
+                memo[n.id] = "|" + n.val + "|" if sub is None else self.to_smt2(sub, defs, memo)
             elif n.op == "c":
                 c = n.val
                 s = str(abs(c.numerator)) + ".0"
@@ -964,6 +968,9 @@ class Sym:
         if _is_arr(o):
             return NotImplemented
         c = self.ctx
+        if isinstance(o, (float, real_np.floating)) and float(o) in (float("inf"), float("-inf")):
+            pos = float(o) > 0  # IEEE comparison of a finite value with +-inf
+            return {"<": pos, "<=": pos, ">": not pos, ">=": not pos, "==": False, "!=": True}[op]
         o = lift(c, o)
         if o is NotImplemented:
             return o
@@ -1019,6 +1026,8 @@ def lift(ctx, x):
         return Sym(ctx, Fraction(int(x)))
     if isinstance(x, (float, real_np.floating)):
         x = float(x)
+        if x == SYMFLOAT_NOMINAL:
+            raise Unsupported("the nominal value of a symbolic float parameter leaked into the computation")
         if x == math.pi:
             return ctx.pi()
         if x != x or x in (float("inf"), float("-inf")):
@@ -1097,7 +1106,7 @@ def strip_common_L(x, y):
 
 
 def materialise(s):
-    """turn the exp(L) factor into an opaque positive atom"""
+    """turn the exp(L) factor into an opaque positive atom (or a product of existing atoms)"""
     if s.L is None:
         return s
     c = s.ctx
@@ -1106,13 +1115,66 @@ def materialise(s):
     if not s.L.is_const and c.prove_equal(s.L, ZERO(c)):
         return Sym(c, s.k, s.n, s.d, None)
     L = s.L
-
-    def make():
-        atom, _ = c.new_atom("E", "exp", L, None)
-        return atom
-
-    atom = c.unify_atom("exp", L, None, make)
+    lst = c.atoms.setdefault(("exp", None), [])
+    atom = None
+    for a, at in lst:
+        if c.prove_equal(a, L):
+            atom = at
+            break
+    if atom is None:
+        atom = _exp_from_existing(c, L, lst)
+    if atom is None:
+        atom, node = c.new_atom("E", "exp", L, None)
+        _relate_older_exps(c, L, atom, node, lst)
+        lst.append((L, atom))
     return Sym(c, s.k, s.n, s.d, None) * atom
+
+
+def _lvals(c, L):
+    out = []
+    for k in (0, 1):
+        try:
+            out.append(c.numeric(L, c.probe_env(k)))
+        except (OverflowError, ZeroDivisionError, ValueError):
+            out.append(float("nan"))
+    return out
+
+
+def _close(x, y):
+    return all(a == a and b == b and abs(a - b) <= 1e-9 * (abs(a) + abs(b)) + 1e-12 for a, b in zip(x, y))
+
+
+def _exp_from_existing(c, L, lst):
+    """exp(L) as a product of two existing exp atoms if L = L_i + L_j is solver-provable
+    (candidates found numerically, confirmed by the solver)"""
+    if len(lst) > 60:
+        return None
+    v = _lvals(c, L)
+    vals = [(_lvals(c, a), a, at) for a, at in lst]
+    for i in range(len(vals)):
+        for j in range(i, len(vals)):
+            if _close(v, [x + y for x, y in zip(vals[i][0], vals[j][0])]):
+                if c.prove_equal(L, vals[i][1] + vals[j][1]):
+                    return vals[i][2] * vals[j][2]
+    return None
+
+
+def _relate_older_exps(c, L, atom, node, lst):
+    """a new atom E = exp(L): record E_k = E * E_m (or E_k = E^2) for older atoms with L_k = L + L_m"""
+    if len(lst) > 60:
+        return
+    v = _lvals(c, L)
+    vals = [(_lvals(c, a), a, at) for a, at in lst]
+    for vk, Lk, Ek in vals:
+        cands = [(v, L, atom)] + vals
+        for vm, Lm, Em in cands:
+            if _close(vk, [x + y for x, y in zip(v, vm)]) and c.prove_equal(Lk, L + Lm):
+                prod = atom * Em
+                if Ek.n.val not in c.subst and Em is not Ek:
+                    c.subst[Ek.n.val] = prod.num_node()
+                    c.z3memo = {}
+                    c.varsets = {}
+                break
 
 
 def _prime_factors(n):
@@ -1397,14 +1459,25 @@ def imag_part(ctx, x):
 # float subclass that carries a symbol (passes isinstance(x, (int, float)) argument checks)
 
 
+SYMFLOAT_NOMINAL = 0.4321012345678899
+
+
 class SymFloat(float):
-    def __new__(cls, sym, nominal=0.5):
+    # numpy must not treat this as a plain float operand (it would use the nominal value): ndarray binary
+    # operators return NotImplemented and Python falls back to the reflected methods below
+    __array_ufunc__ = None
+
+    def __new__(cls, sym, nominal=SYMFLOAT_NOMINAL):
         obj = float.__new__(cls, nominal)
         obj.sym = sym
         return obj
 
     def _b(name):  # noqa: N805
         def f(self, o):
+            if isinstance(o, real_np.ndarray):
+                a = real_np.empty((), dtype=object)
+                a[()] = self.sym
+                return getattr(a, name)(o)
             return getattr(self.sym, name)(o.sym if isinstance(o, SymFloat) else o)
 
         return f
